@@ -206,7 +206,9 @@ def entries():
                    lambda rng: data_clf(rng, labels=(3, 8)), ["predict", "predict_proba"], bad=[("short y", _bad_short_y)]))
     E.append(Entry("IntervalRegressor",
                    lambda k: M.IntervalRegressor(estimator=_lr(), n_estimators=[3, 5][k], alpha=[1.0, 0.5][k]),
-                   [("n_estimators", v(2, 4)), ("alpha", v(0.5, 1.5)), ("estimator", [_lr, lambda: _dtr(1)]), ("n_jobs", v(None, 2))],
+                   [("n_estimators", v(2, 4)), ("alpha", v(0.5, 1.5)), ("estimator", [_lr, lambda: _dtr(1)])],
+                   # (n_jobs > 1 draws from the global generator inside worker threads: which estimator gets which draw then
+                   #  depends on the schedule; thread schedules of this class are the business of C17, not of the table)
                    data_reg, ["predict", "predict_all", "predict_sorted"], seed="global", bad=[("short y", _bad_short_y)]))
     E.append(Entry("ClassifierAfterKMeans",
                    lambda k: M.ClassifierAfterKMeans(estimator=[_logreg(), _dtc(2)][k], clus=_km([2, 3][k])),
